@@ -24,6 +24,29 @@ def expo_dag(k, ver=(3, 12)):
     return pm.header(ver) + out
 
 
+
+def nested_code(ver, levels):
+    """A code object whose co_consts field is again a code object, `levels` deep (built as bytes; one level of depth each)."""
+    lay = pm.code_layout(ver)
+    inner = b"N"
+    for _ in range(levels):
+        k, body = 0, b"c"
+        for f in lay:
+            if f == "i":
+                body += b"\0\0\0\0"
+            else:
+                body += b"s\0\0\0\0" if k == 0 else (inner if k == 1 else b")\x00")
+                k += 1
+        inner = body
+    return pm.header(ver) + inner
+
+
+def depth_limit():
+    import re as _re
+    m = _re.search(r"MAX_MARSHAL_STACK_DEPTH\s*:\s*\w+\s*=\s*(\d+)", open(os.path.join(REPO, "src/handlers/pyc.rs")).read())
+    return int(m.group(1)) if m else 1000
+
+
 def mutate(rng, data):
     b = bytearray(data)
     kind = rng.choice(["trunc", "flip", "max-field", "zero-field", "insert", "dup", "type-code"])
@@ -173,6 +196,10 @@ def tree_runs(ctx, rng, release):
                 d, tag = mutate(rng, data)
                 bad["bad/f%02d.%s" % (i, EXT[h])] = d
             bad["bad/deep.pyc"] = pm.header((3, 12)) + b")\x01" * 100000 + b"N"
+            # the deepest nesting the source still accepts, with the largest frames of the reader, on the real 8 MiB main stack
+            lim = depth_limit()
+            bad["bad/nested-code-a.cpython-312.pyc"] = nested_code((3, 12), max(1, lim - 2))
+            bad["bad/nested-code-b.cpython-38.pyc"] = nested_code((3, 8), max(1, lim - 12))
             bad["bad/empty.zip"] = b""
             bad["bad/junk.zip"] = b"PK\x03\x04" + rng.randbytes(200)
             bad["bad/junk.jar"] = rng.randbytes(300)
